@@ -24,6 +24,8 @@ type C13Ctx struct {
 	GMP       int               `json:"gomaxprocs"`
 	Touch     bool              `json:"touch,omitempty"`      // rewrite the source files (new mtimes/inodes, same bytes)
 	KeepPrior bool              `json:"keep_prior,omitempty"` // leave the previous run's output in place
+	// WarmHome: HOME is the one earlier runs (incl. the pre-history) used; else a fresh one
+	WarmHome bool `json:"warm_home,omitempty"`
 	// AlterPrior: leave the previous run's output in place but change its content
 	// without changing its length (one byte in the middle) - what sits at the
 	// output path is part of the environment that must not matter
@@ -34,6 +36,11 @@ type C13Case struct {
 	World *sim.WorldSpec `json:"world"`
 	Ctxs  []C13Ctx       `json:"ctxs"`
 	Reps  int            `json:"reps,omitempty"` // replays of the whole group (map-order sampling)
+	// Pre: what happened in this directory and this HOME before the group: one run
+	// over OLDER sources of the imported packages (these files, then restored),
+	// leaving its output in place and whatever it keeps under HOME. The first
+	// context of the group then runs with that HOME and that leftover.
+	Pre map[string]string `json:"pre_history_older_files,omitempty"`
 }
 
 var clockInstants = []int64{0, 1, 951782400 /*2000-02-29*/, 2147483647 /*2038-01-19*/, 2147483648, 1700000000, 4102444800 /*2100*/, 253402300799 /*9999-12-31*/, 1234567890}
@@ -53,6 +60,13 @@ func genC13(cfg Config, ws *WorldSet, i, nctx int) C13Case {
 	}
 	sort.Strings(siblings)
 	c := C13Case{World: world}
+	// a third of the synthetic groups have a pre-history on older imported sources
+	if _, ok := world.Files["mod/domain/domain.go"]; ok && r.Chance(1, 2) {
+		c.Pre = map[string]string{}
+		for _, f := range []string{"mod/domain/domain.go", "mod/model/model.go"} {
+			c.Pre[f] = strings.ReplaceAll(world.Files[f], " struct {\n", " struct {\n\tZzz int\n")
+		}
+	}
 	for j := 0; j < nctx; j++ {
 		x := C13Ctx{Dims: map[string]string{}}
 		form := sim.Pick(r, []string{"rel-pkgdir", "dot-rel-pkgdir", "rel-modroot", "dotdot", "abs", "abs-modroot", "gofile", "gofile-overridden", "symlink-pkgdir"})
@@ -108,7 +122,8 @@ func genC13(cfg Config, ws *WorldSet, i, nctx int) C13Case {
 			x.Dims["LANG"] = l
 		}
 		if r.Chance(1, 3) {
-			x.Env = append(x.Env, "VERIF_JUNK_"+fmt.Sprint(r.Intn(1000))+"="+string(sim.Pick(r, []string{"1", "", "a b c", "\\n"})), "CONVERGEN_DEBUG=1", "NO_COLOR=1")
+			x.Env = append(x.Env, "VERIF_JUNK_"+fmt.Sprint(r.Intn(1000))+"="+string(sim.Pick(r, []string{"1", "", "a b c", "\\n"})), "CONVERGEN_DEBUG=1", "NO_COLOR=1",
+				"GOFLAGS="+sim.Pick(r, []string{"-tags=integration", "-trimpath", ""}), "XDG_CACHE_HOME={W}/tmp/xdg", "USER="+sim.Pick(r, []string{"alice", "root", "ci"}))
 			x.Dims["env-noise"] = "yes"
 		}
 		if r.Chance(1, 3) {
@@ -126,6 +141,12 @@ func genC13(cfg Config, ws *WorldSet, i, nctx int) C13Case {
 			x.Touch = true
 			x.Dims["mtimes"] = "touched"
 		}
+		x.WarmHome = r.Bool()
+		if c.Pre != nil && j == 0 {
+			x.WarmHome, x.KeepPrior = true, true
+			x.Dims["prior-output"] = "left by a run over older imported sources"
+		}
+		x.Dims["HOME"] = map[bool]string{true: "used by earlier runs", false: "fresh"}[x.WarmHome]
 		if j > 0 && r.Chance(1, 3) {
 			x.KeepPrior = true
 			x.Dims["prior-output"] = "kept"
@@ -196,6 +217,21 @@ func execC13(env *sim.Env, c C13Case) CaseResult {
 	defer env.DropWorldDir(root)
 	setupAbs := "{W}/" + c.World.Setup
 	ExecSteps(env, root, []Step{{Op: "symlink", Path: "{W}/modlink", Data: []byte("{W}/mod")}}, nil)
+	if c.Pre != nil {
+		var pre, post []Step
+		for f, older := range c.Pre {
+			pre = append(pre, Step{Op: "write", Path: "{W}/" + f, Data: []byte(older)})
+			post = append(post, Step{Op: "write", Path: "{W}/" + f, Data: []byte(c.World.Files[f])})
+		}
+		iv := SetupInv(c.World)
+		pre = append(pre, Step{Op: "run", Inv: &iv, Bin: "plain", HomeRel: "home-warm"})
+		rs := ExecSteps(env, root, append(pre, post...), st)
+		st.Inc("n:pre_histories")
+		if r := rs[len(pre)-1]; r.Err != nil {
+			res.Infra = fmt.Errorf("pre-history run: %v", r.Err)
+			return res
+		}
+	}
 	reps := c.Reps
 	if reps < 1 {
 		reps = 1
@@ -231,7 +267,10 @@ func execC13(env *sim.Env, c C13Case) CaseResult {
 				}
 			}
 			ExecSteps(env, root, pre, nil)
-			run := Step{Op: "run", Inv: &x.Inv, Bin: x.Bin, Plan: x.Plan, Env: x.Env, GMP: x.GMP}
+			run := Step{Op: "run", Inv: &x.Inv, Bin: x.Bin, Plan: x.Plan, Env: x.Env, GMP: x.GMP, HomeRel: "home-warm"}
+			if !x.WarmHome {
+				run.HomeRel = fmt.Sprintf("home-fresh-%d-%d", rep, j)
+			}
 			rs := ExecSteps(env, root, []Step{run}, st)
 			r := &rs[0]
 			if r.Err != nil || r.Obs == nil || strings.HasPrefix(r.Obs.Status, "starterr") {
@@ -261,6 +300,9 @@ func execC13(env *sim.Env, c C13Case) CaseResult {
 				}
 			}
 			logParts = append(logParts, fmt.Sprintf("%s/%s/%s", o.status, sim.HashBytes(o.out), sim.HashBytes(o.stdout)))
+			if j == 0 && rep == 0 && len(r.Obs.Stderr) == 0 && o.status == "exit:0" {
+				st.Inc("n:groups_free_of_diagnostics")
+			}
 			if first == nil {
 				first, firstCtx = o, x
 				continue
@@ -367,6 +409,9 @@ func shrinkC13(c C13Case) []C13Case {
 	}
 	if b.Touch != a.Touch {
 		try(func(x *C13Ctx) { x.Touch = a.Touch; x.Dims["mtimes"] = a.Dims["mtimes"] })
+	}
+	if b.WarmHome != a.WarmHome {
+		try(func(x *C13Ctx) { x.WarmHome = a.WarmHome; x.Dims["HOME"] = a.Dims["HOME"] })
 	}
 	if b.AlterPrior {
 		try(func(x *C13Ctx) { x.AlterPrior = false; x.Dims["prior-output"] = "kept" })
@@ -476,7 +521,7 @@ func runC13(cfg Config, args []string) int {
 		Exec:   func(c C13Case) CaseResult { return execC13(env, c) },
 		Shrink: shrinkC13,
 		Rule: fmt.Sprintf("one case = one world (fixture or synthetic, biased to several imports/interfaces, accepted and rejected) run %d times in fresh processes with the same flags while the seed varies marker bytes, simulated clock instant and step, pid, hostname, "+
-			"cwd and spelling of the input path, GOFILE vs argument, GOMAXPROCS, per-file stat delays (steering the concurrent ParseFile callbacks), TZ/LANG/TMPDIR/env noise, the variables go generate exports (GOPACKAGE of another package, GOLINE, DOLLAR), source mtimes and whether the previous output is still in place (unchanged, or with one byte altered at the same length); "+
+			"cwd and spelling of the input path, GOFILE vs argument, GOMAXPROCS, per-file stat delays (steering the concurrent ParseFile callbacks), TZ/LANG/TMPDIR/env noise, the variables go generate exports (GOPACKAGE of another package, GOLINE, DOLLAR), source mtimes whether the previous output is still in place (unchanged, or with one byte altered at the same length), and whether HOME is fresh or was used by earlier runs (a third of the groups start with a pre-history: one run over older sources of the imported packages in this directory and HOME); "+
 			"a quarter of the runs use the unmodified binary. All runs of a group must agree on exit status, output bytes, stdout and (path-spelling-normalised) diagnostics. distinct_nontrivial counts distinct (world, input form, binary, GOMAXPROCS, touched, prior output) tuples.", nctx),
 		Assume: []string{"the module is never moved: all runs of a group happen in the same directory", "marker collisions with the source text are never generated",
 			"Go map iteration order and goroutine interleaving inside the real process are steered (GOMAXPROCS, stat delays) and sampled by repetition, not dictated; no oracle depends on them"},
